@@ -47,10 +47,34 @@ const PER_QUEUE_REGS: [u64; 11] = [0x34, 0x38, 0x3c, 0x40, 0x44, 0x80, 0x84, 0x9
 /// QueueSel must name the queue the operation is about - and removed from the trace; exact
 /// repetitions (a read repeating an identical earlier read of the operation, a write repeating
 /// the last write to that register) are removed too, they change nothing.
+/// Registers an operation may additionally *read* (reads have no side effect on a virtio-mmio
+/// device): its own read/write registers - the status register for status writes and the reset on
+/// drop (waiting for a reset to complete), the queue's ready/PFN/maximum-size registers while
+/// programming the selected queue (checking whether it is live first).
+fn own_readable(op: &str) -> &'static [u64] {
+    match op {
+        "set_status" | "drop" => &[0x70],
+        "queue_set" => &[0x34, 0x40, 0x44],
+        _ => &[],
+    }
+}
+
 fn normal_form(op: &str, trace: &[MmioAcc], about: Option<u64>, judge: bool) -> Vec<MmioAcc> {
     let mut sel = SEL_AT_START.with(|c| c.get()).map(u64::from);
     let mut out: Vec<MmioAcc> = Vec::new();
     for a in trace {
+        if judge && !a.write && own_readable(op).contains(&a.off) {
+            // judged by the QueueSel rule below if it is a per-queue register, otherwise free
+            if PER_QUEUE_REGS.contains(&a.off) && about.is_some() && sel != about {
+                violation("mmio-trace", op, format!("{op}: {} read while QueueSel is {sel:?}; the operation is about queue {}", reg_name(a.off as u32), about.unwrap()));
+                return trace.to_vec();
+            }
+            continue;
+        }
+        // stopping a queue that is still live before it is programmed again is fine as well
+        if judge && op == "queue_set" && a.write && (a.off == 0x44 || a.off == 0x40) && a.value == 0 && !out.iter().any(|b| b.write) {
+            continue;
+        }
         if a.write && a.off == 0x30 {
             sel = Some(a.value);
             continue;
